@@ -82,8 +82,14 @@ impl<'a> GeneratorState<'a> {
                             Operation::And(_) => return Ok(ExprType::Immediate(l & r)),
                             Operation::Or(_) => return Ok(ExprType::Immediate(l | r)),
                             Operation::Xor(_) => return Ok(ExprType::Immediate(l ^ r)),
-                            Operation::Mul(_) => return Ok(ExprType::Immediate(l * r)),
-                            Operation::Div(_) => return Ok(ExprType::Immediate(l / r)),
+                            Operation::Mul(_) => return match l.checked_mul(*r) {
+                                Some(v) => Ok(ExprType::Immediate(v)),
+                                None => Err(self.compiler_state.syntax_error("Constant overflow", pos)),
+                            },
+                            Operation::Div(_) => return match l.checked_div(*r) {
+                                Some(v) => Ok(ExprType::Immediate(v)),
+                                None => Err(self.compiler_state.syntax_error("Division by zero", pos)),
+                            },
                             _ => { return Err(self.compiler_state.compiler_error("Arithmetics is partially implemented", pos)); },
                         } 
                     },
